@@ -641,3 +641,12 @@ func FireDue() int {
 		}
 	}
 }
+
+// StepNo is the number of scheduling decisions taken so far in this execution (a logical clock for
+// invoke/response stamps).
+func StepNo() int {
+	if S == nil {
+		return 0
+	}
+	return S.Steps
+}
